@@ -67,6 +67,7 @@ theorem asciiCls_ok : ClsOK asciiCls where
     simp only [asciiCls, LPAR, RPAR] at *
     split <;> simp <;> omega
   parenNotSpace := by decide
+  space := by decide
 
 example : SpaceFreeT asciiCls [⟨[109, 105, 116], [], false⟩, ⟨[71, 80, 76], [], true⟩] := by
   intro e he
